@@ -158,4 +158,74 @@ def probThresholdOk : Fl → Bool
 def rmDomain (fcsts obs probs : List Fl) (mode : String) : Bool :=
   fcsts.all probOk && obs.all binaryOk && probs.all probThresholdOk && modeOk mode
 
+/-! ### warning scaling → decision-point weights (Appendix B of Taggart & Wilke 2024; `_scaling_to_weight_matrix`)
+
+The scaling matrix `S` is given as the code takes it: row 0 = highest certainty category, last row = lowest (all 0);
+column 0 = the "no warning" severity (all 0), column j+1 = the j-th warned severity category.  The weight matrix has one row
+per probability threshold (row i = the threshold between certainty rows i+1 and i of `S`, i.e. rows in DECREASING
+probability) and one column per warned severity category.
+
+Level-set statement: warning level ℓ is the staircase region {S ≥ ℓ}; its assessment weight sits on the CORNER points of
+that staircase: cell (i, j+1) is at level ≥ ℓ, while the cell below it (lower certainty, (i+1, j+1)) and the cell left of it
+(lower severity, (i, j)) are both below ℓ.  Equivalently the weight of decision point (i, j) is the sum of the assessment
+weights of the levels ℓ with max(S[i+1][j+1], S[i][j]) < ℓ ≤ S[i][j+1]. -/
+
+/-- entry of the scaling matrix, row `i` from the top, column `j`; 0 outside -/
+def sAt (S : List (List Nat)) (i j : Nat) : Nat := (S.getD i []).getD j 0
+
+/-- the boundary between certainty rows i+1 and i crosses level ℓ in scaling column j+1, and level ℓ is not yet reached in
+    the less severe column j of row i: decision point (i, j) is a corner of the staircase {S ≥ ℓ} -/
+def isCorner (S : List (List Nat)) (l i j : Nat) : Bool :=
+  decide (l ≤ sAt S i (j + 1)) && decide (sAt S (i + 1) (j + 1) < l) && decide (sAt S i j < l)
+
+/-- weight of decision point (probability row i, severity column j) = Σ_ℓ assessment_weight[ℓ−1] · [corner of level ℓ] -/
+def scalingWeight (S : List (List Nat)) (w : List Rat) (i j : Nat) : Rat :=
+  ((List.range w.length).map fun l0 => if isCorner S (l0 + 1) i j then w.getD l0 0 else 0).sum
+
+/-- the 0/1 matrix of the corner points of level ℓ -/
+def cornerMatrix (S : List (List Nat)) (l : Nat) : List (List Rat) :=
+  (List.range (S.length - 1)).map fun i => (List.range ((S.headD []).length - 1)).map fun j =>
+    if isCorner S l i j then 1 else 0
+
+/-- the whole weight matrix, rows in decreasing probability -/
+def scalingWeights (S : List (List Nat)) (w : List Rat) : List (List Rat) :=
+  (List.range (S.length - 1)).map fun i => (List.range ((S.headD []).length - 1)).map fun j => scalingWeight S w i j
+
+/-- the documented domain of `weights_from_warning_scaling` for the scaling matrix (its `Raises:` list): first column and last
+    row 0, non-decreasing along rows, non-increasing down columns, at least as many assessment weights as the highest level -/
+def scalingDocDomain (S : List (List Nat)) (nw : Nat) : Prop :=
+  (∀ i < S.length, sAt S i 0 = 0) ∧
+  (∀ j < (S.headD []).length, sAt S (S.length - 1) j = 0) ∧
+  (∀ i < S.length, ∀ j < (S.headD []).length, j + 1 < (S.headD []).length → sAt S i j ≤ sAt S i (j + 1)) ∧
+  (∀ i < S.length, i + 1 < S.length → ∀ j < (S.headD []).length, sAt S (i + 1) j ≤ sAt S i j) ∧
+  S.flatten.foldl Nat.max 0 ≤ nw
+
+instance (S : List (List Nat)) (nw : Nat) : Decidable (scalingDocDomain S nw) := by
+  unfold scalingDocDomain; infer_instance
+
+/-- the domain on which the Appendix-B loop of `_scaling_to_weight_matrix` returns the corner weights: the documented domain
+    AND no more probability thresholds than assessment weights (`lowest_prob_index` starts at `max_level + 1`, a LEVEL count,
+    but is compared with ROW indices — notes/C12.md N1) -/
+def scalingDomain (S : List (List Nat)) (nw : Nat) : Prop := scalingDocDomain S nw ∧ S.length - 1 ≤ nw
+
+instance (S : List (List Nat)) (nw : Nat) : Decidable (scalingDomain S nw) := by
+  unfold scalingDomain; infer_instance
+
+/-- what the loop returns on the whole documented domain: the corner weights, but only for the `nw` lowest probability
+    thresholds (row i has height `S.length − 1 − i` counted from the bottom); higher rows are left 0 -/
+def scalingWeightsCut (S : List (List Nat)) (w : List Rat) : List (List Rat) :=
+  (List.range (S.length - 1)).map fun i => (List.range ((S.headD []).length - 1)).map fun j =>
+    if S.length - 1 - i ≤ w.length then scalingWeight S w i j else 0
+
+/-! the warning service a scaling matrix encodes (Taggart & Wilke 2024): severity category j with forecast probability f_j
+falls in the certainty row = first row i from the top whose lower probability threshold `probs[i]` is reached (`probs` in
+decreasing order, one per row except the bottom row, which is reached by every probability); the warning level of that
+category is the entry of S there, and the level issued is the highest over the categories -/
+
+def certaintyRow (lower : Bool) (probs : List Rat) (f : Rat) : Nat :=
+  (probs.findIdx? fun p => decide (above lower f p)).getD probs.length
+
+def warnLevel (S : List (List Nat)) (lower : Bool) (probs fs : List Rat) : Nat :=
+  ((List.range fs.length).map fun j => sAt S (certaintyRow lower probs (fs.getD j 0)) (j + 1)).foldl Nat.max 0
+
 end SV.Spec.Firm
